@@ -324,6 +324,8 @@ class ImapSession:
             self.responses.append(r)
             self.resp_vt.append(vt)
             self.rig.counts["resp:" + (r.name or r.kind)] += 1
+            for d_ in (r.diag or ()):
+                self.rig.counts["leniency:" + d_] += 1
             self._view_monitor(r)
             for fn in self.listeners:
                 fn(self, r)
